@@ -1,15 +1,22 @@
 #!/usr/bin/env python3
 """regenerates the table between the SEEDED-TABLE markers of DESIGN.md from seeded/*/meta.json"""
-import json, os, glob
+import json, os, glob, re
 D = os.path.dirname(os.path.dirname(os.path.abspath(__file__)))
-rows = ['| id | property | change (needs … to manifest) | check result | how it is caught |', '|---|---|---|---|---|']
-for f in sorted(glob.glob(os.path.join(D, 'seeded', '*', 'meta.json'))):
+rows = ['| id | property | change (needs … to manifest) | check result | how it is caught | re-check with the final machinery |', '|---|---|---|---|---|---|']
+def _key(f):
+    i = os.path.basename(os.path.dirname(f)); a, b = i.split('-'); return (a, int(b))
+for f in sorted(glob.glob(os.path.join(D, 'seeded', '*', 'meta.json')), key=_key):
     m = json.load(open(f))
     c = m.get('check', {})
+    rc = os.path.join(os.path.dirname(f), 'recheck.json')
+    rtxt = ''
+    if os.path.exists(rc):
+        r = json.load(open(rc))
+        rtxt = '%s (exit %s; /repo %s, /verif %s)' % (r['verdict'], r['check_exit'], r['repo_head'], r['verif_head'])
     sig = '; '.join(s.split(' ')[0] for s in c.get('signatures', [])[:2])
-    rows.append('| %s | %s | %s (%s) | exit %s, %s VIOLATION line(s) | %s%s |' % (
+    rows.append('| %s | %s | %s (%s) | exit %s, %s VIOLATION line(s) | %s%s | %s |' % (
         m['id'], m['property'], (m.get('summary') or '').replace('|', '/')[:160], (m.get('needs_to_manifest') or '').replace('|', '/')[:140],
-        c.get('exit'), c.get('violation_lines'), c.get('verdict'), ((' — ' + sig) if sig else '') + ((' — *' + m['history'] + '*') if m.get('history') else '')))
+        c.get('exit'), c.get('violation_lines'), c.get('verdict'), ((' — ' + sig) if sig else '') + ((' — *' + m['history'] + '*') if m.get('history') else ''), rtxt))
 p = os.path.join(D, 'DESIGN.md')
 s = open(p).read()
 a, b = '<!-- SEEDED-TABLE-BEGIN -->', '<!-- SEEDED-TABLE-END -->'
